@@ -44,6 +44,6 @@ def main():
             sh("git -C /repo checkout -- .")
         json.dump({"seed": sid, "repo_head": sh("git -C /repo rev-parse --short HEAD").stdout.strip(), "tier": "quick",
                    "results": res}, open(os.path.join(d, "detection.json"), "w"), indent=1)
-    sh(f"cd {V} && git checkout -- evidence")
+    sh(f"cd {V} && git checkout -- evidence lean/PiqpProofs/Generated")
     return 0
 sys.exit(main())
